@@ -230,6 +230,17 @@ def run_values(spec):
             w = execnet.loads(refb)
             if values.canon(w) != cv:
                 res.violation("loads-of-ref-encoding-differs", short(v))
+            elif i % 50 == 7 and len(refb) < 20000:
+                # persisted data: several dumps appended to one file (after an application header) load back one by one
+                from monitors import c01 as _c01
+
+                others = []
+                for x in (g.value(2), g.value(2)):
+                    try:
+                        others.append((x, values.canon(x), codec.encode(x)))
+                    except RecursionError:
+                        pass
+                _c01.stream_sequence(res, execnet, rng, [(v, cv, refb)] + others)
             elif i % 4 == 0:
                 # "loads to the same value" every time: what the receiver of an earlier load did to its containers is
                 # not part of a later load of the same bytes
